@@ -116,6 +116,19 @@ impl World {
     /// Invariants on node i's current state (called after every API call on it).
     pub fn observe_state(&mut self, i: usize, post: &Snap, ctx: &mut Ctx) {
         let id = i as u64 + 1;
+        // C11: group commit stays on once the application enabled it (the commit rule
+        // "replicated in at least two groups" silently degrades otherwise)
+        if self.scen.group_commit {
+            if let Some(l) = self.live(i) {
+                if !l.rn.raft.prs().group_commit() {
+                    ctx.v(
+                        "C11",
+                        "group commit was switched off by the library",
+                        format!("node {}: enable_group_commit(true) was called at start-up, the tracker now reports it off", id),
+                    );
+                }
+            }
+        }
         // C02: one leader per term
         if post.role == StateRole::Leader {
             let durable = {
@@ -1083,7 +1096,7 @@ impl World {
 
     fn c16_prevote_tally(&mut self, i: usize, kind: &CallKind, pre: &Snap, post: &Snap, ctx: &mut Ctx) {
         let id = i as u64 + 1;
-        if !self.cfg(i).pre_vote {
+        if !self.live(i).map(|l| l.rn.raft.pre_vote).unwrap_or(false) {
             return;
         }
         // maintain the monitor's own tally of granted pre-votes
